@@ -126,6 +126,10 @@ def spill_regs(
                 block.ops.append(DecRef(dec))
 
             if op in spill_locs:
+                if op.is_borrowed and op.type.is_refcounted:
+                    # The attribute takes over a reference (SetAttr steals), but a borrowed
+                    # value such as a literal doesn't own one.
+                    block.ops.append(IncRef(op))
                 # XXX: could we set uninit?
                 block.ops.append(SetAttr(env_reg, spill_locs[op], op, op.line))
 
